@@ -265,6 +265,9 @@ func run(r *core.Run) {
 	if only == "" || only == "app" {
 		tableApp(r)
 	}
+	if only == "appext" { // development aid: the extended application forms alone
+		tableAppExt(r)
+	}
 	if only == "" || only == "rec" {
 		tableRec(r)
 	}
